@@ -32,7 +32,9 @@ REGISTERED = {"invalid_request", "invalid_client", "invalid_grant", "unauthorize
 
 LONG = "A" * 5000
 HOSTILE = ["", LONG, '"', "\\", "a\x00b", "a\r\nb", "é", "你好", "%zz", "%", "a b", "a+b", "a&b=c", "a#b", "'", "<script>", "%FF%FE", "\x7f", " ", "\t", "a;b", "a,b",
-           "null", "0", "[]", "{}", "é" * 50, "ü" * 43 + "-._~", "w" * 42 + "ö", "٣" * 60, "A" * 129, "a" * 43 + "\n"]
+           "null", "0", "[]", "{}", "é" * 50, "ü" * 43 + "-._~", "w" * 42 + "ö", "٣" * 60, "A" * 129, "a" * 43 + "\n",
+           # strings the URL parsers of the standard library refuse (unbalanced brackets, hosts that change under NFKC)
+           "https://[", "https://host]/cb", "https://[::1/cb", "https://ex\u2100mple.com/cb", "https://a\uff0fb/cb", "http://[::1]:x/cb"]
 HOSTILE_NONSTR = [None]      # a parameter given several times reaches the core classes through datalist, not as a list value
 
 
